@@ -34,5 +34,21 @@ for m in sorted(glob.glob(os.path.join(V, "harmless", "*", "meta.json"))):
     rows.append("| %s | %s | %s |" % (hid, re.sub(r"\s+", " ", str(j.get("summary", "")))[:150].replace("|", "/"), st))
 put("harmless-table", "Result of the final run: %d quiet, %d tie-broken reports without input, %d reports with an input, %d not run.\n\n"
     "| Patch | Change | Check of that property |\n|---|---|---|\n" % (quiet, alarm, inp, other) + "\n".join(rows))
+# final state per property
+rows = []
+for i in range(1, 21):
+    pid = "C%02d" % i
+    ev = json.load(open(os.path.join(V, "evidence", pid + ".json")))
+    cov = ev["coverage"]
+    seeds = sorted(glob.glob(os.path.join(V, "seeded", pid + "-*", "meta.json")))
+    winp = sum(1 for m in seeds if json.load(open(m)).get("detected_with_input_by"))
+    harm = sorted(glob.glob(os.path.join(V, "harmless", pid + "-h*", "meta.json")))
+    hq = sum(1 for m in harm if "checks" in json.load(open(m)) and not json.load(open(m)).get("alarm"))
+    known = sum(1 for e in json.load(open(os.path.join(V, "known_findings.json")))["findings"] if e["property"] == pid and e["status"] == "known")
+    fixed = sum(1 for e in json.load(open(os.path.join(V, "known_findings.json")))["findings"] if e["property"] == pid and e["status"] == "fixed")
+    rows.append("| %s | %d | %d | %s | %s | %d / %d | %d / %d | %d fixed, %d known |" % (
+        pid, len(cov.get("theorems", [])), cov["obligations"], cov.get("evaluations", "-"), ev["wall_s"], winp, len(seeds), hq, len(harm), fixed, known))
+put("final-table", "| Prop | property theorems (props/) | Qed-closed statements in the closure | evaluations (quick) | quick wall s | seeded changes caught with input | "
+    "behaviour-preserving patches quiet | findings |\n|---|---|---|---|---|---|---|---|\n" + "\n".join(rows))
 open(p, "w").write(s)
 print("tables refreshed: harmless quiet=%d alarm=%d with_input=%d other=%d" % (quiet, alarm, inp, other))
